@@ -92,6 +92,20 @@ def gadget_tie_then_improve(r, names):
     return es
 
 
+def gadget_decrease_key(r, names):
+    """a node discovered over a heavy edge and improved later, with a further node whose best route runs through it
+    while its direct edge lies between the improved and the stale distance (weights up to 10): the search must
+    re-queue the improved node"""
+    s_, a, b_, c_ = names[:4]
+    es = [(s_, a, 8 + r.below(3)), (s_, b_, 1), (b_, a, 1 + r.below(2)), (s_, c_, 5 + r.below(2)), (a, c_, 1)]
+    for _ in range(r.below(3)):
+        u, v = r.pick(names), r.pick(names)
+        if u != v and not _same(True, (u, v), [(e[0], e[1]) for e in es]) and \
+                not _same(True, (v, u), [(e[0], e[1]) for e in es]):
+            es.append((u, v, 1 + r.below(10)))
+    return es
+
+
 def _same(directed, p, pairs):
     for q in pairs:
         if q == p or (not directed and q == (p[1], p[0])):
@@ -355,6 +369,19 @@ def closeness_fast(nodes, w, weighted, wf):
                 val *= (r_ - 1) / (n - 1)
             out[x] = val
     return out
+
+
+def diamond_chain(r2, cid, k=70):
+    """k two-way diamonds in series: 2^k equal-length shortest paths between the ends (path counts beyond 2^64)"""
+    directed = r2.below(2)
+    edges, names, cur, nxt = [], [0], 0, 1
+    for _ in range(k):
+        a, b, t = nxt, nxt + 1, nxt + 2
+        nxt += 3
+        names += [a, b, t]
+        edges += [(cur, a, 1), (cur, b, 1), (a, t, 1), (b, t, 1)]
+        cur = t
+    return {"id": cid, "spec": (directed, 0, 1, 2, 0, 1), "nodes": names, "edges": edges, "nomodel": True}
 
 
 def huge_case(r2, cid):
